@@ -41,6 +41,7 @@ var mutants = []Mutant{
 	// ---- C03
 	{"C03", "gate-ignores-range", "internal/requestmethodchecker.go", [][2]string{{"return req.Method == http.MethodGet && req.Header.Get(\"Range\") == \"\"", "return req.Method == http.MethodGet"}}, "C03.3", "Range request served the full body"},
 	{"C03", "key-drops-query", "internal/urlkeyer.go", [][2]string{{"if normalized.RawQuery != \"\" {", "if false && normalized.RawQuery != \"\" {"}}, "C03.2", "?a=1 and ?a=2 share an entry"},
+	{"C03", "ip-literal-unbracketed", "internal/urlkeyer.go", [][2]string{{"\t\thostPort = \"[\" + hostPort + \"]\"\n", "\t\t_ = hostPort\n"}}, "C03.7", "[::1]:8080 vs [::1:8080]"},
 	{"C03", "hex-lowercase", "internal/urlkeyer.go", [][2]string{{"\"0123456789ABCDEF\"", "\"0123456789abcdef\""}}, "C03.6", "%2f vs %2F"},
 	{"C03", "https-default-80", "internal/helpers.go", [][2]string{{"return \"443\"", "return \"80\""}}, "C03.5", "https :80 collapses"},
 	{"C03", "key-includes-fragment", "internal/urlkeyer.go", [][2]string{{"\treturn result\n}", "\treturn result + \"#\" + normalized.Fragment\n}"}}, "C03.2", "fragments split the cache"},
@@ -99,7 +100,7 @@ var mutants = []Mutant{
 	{"C11", "504-without-status", "helpers.go", [][2]string{{"\t_, _ = buf.WriteString(\n\t\tinternal.CacheStatusHeader + \": \" + internal.CacheStatusBypass.Value + \"\\r\\n\",\n\t)\n", ""}, {"\t\"net/http\"\n\n\t\"github.com/bartventer/httpcache/internal\"\n", "\t\"net/http\"\n"}}, "C11.6", "504 lacks the status field"},
 	{"C11", "stale-marked-hit", "roundtripper.go", [][2]string{{"\tif freshness.IsStale {\n\t\t// Served although stale (only-if-cached): say so.", "\tif false {\n\t\t// Served although stale (only-if-cached): say so."}}, "C11.4", "D24"},
 	{"C11", "legacy-not-cleared", "internal/header.go", [][2]string{{"\t} else {\n\t\t// Not served from this cache: do not forward a marker set by an upstream cache.\n\t\theader.Del(FromCacheHeader)\n\t}", "\t}"}}, "C11.5", "D25"},
-	{"C11", "age-without-resident-correction", "internal/helpers.go", [][2]string{{"adjusted := max(age.Value+clock.Since(age.Timestamp), 0)", "adjusted := max(age.Value, 0)"}}, "C11.2", "Age not advanced since computed"},
+	{"C11", "age-without-resident-correction", "internal/helpers.go", [][2]string{{"adjusted := max(SaturatingAdd(age.Value, clock.Since(age.Timestamp)), 0)", "adjusted := max(age.Value, 0)"}}, "C11.2", "Age not advanced since computed"},
 	{"C11", "revalidated-on-any", "internal/validationresponsehandler.go", [][2]string{{"\t\tCacheStatusMiss.ApplyTo(resp.Header)\n\t\tr.l.LogCacheMiss(req, ctx.URLKey, ctx.ToMisc(ccResp))", "\t\tCacheStatusRevalidated.ApplyTo(resp.Header)\n\t\tr.l.LogCacheMiss(req, ctx.URLKey, ctx.ToMisc(ccResp))"}}, "C11.3", "full reply marked REVALIDATED"},
 	// ---- C12
 	{"C12", "names-case-sensitive", "internal/ccdirectives.go", [][2]string{{"\t\t\tkey = strings.ToLower(key)\n", ""}}, "C12.1", "D26"},
@@ -112,7 +113,7 @@ var mutants = []Mutant{
 	{"C13", "sie-on-404", "internal/helpers.go", [][2]string{{"\t\thttp.StatusGatewayTimeout:\n\t\treturn true", "\t\thttp.StatusGatewayTimeout, http.StatusNotFound:\n\t\treturn true"}}, "C13.1", "404 triggers stale serving"},
 	{"C13", "sie-ignores-stored-no-cache", "internal/validationresponsehandler.go", [][2]string{{"if !storedCC.MustRevalidate() && !storedNoCache && !ctx.CCReq.NoCache() &&", "if !storedCC.MustRevalidate() && !ctx.CCReq.NoCache() &&"}, {"_, storedNoCache := storedCC.NoCache()", "_, _ = storedCC.NoCache()"}}, "C13.3", "D30"},
 	{"C13", "sie-for-any-method", "internal/validationresponsehandler.go", [][2]string{{"if (err != nil || isStaleErrorAllowed(resp.StatusCode)) && req.Method == http.MethodGet {", "if err != nil || isStaleErrorAllowed(resp.StatusCode) {"}}, "C13.3", "non-GET answered from store"},
-	{"C13", "window-inclusive", "internal/cacheabilityevaluator.go", [][2]string{{"if age < freshness.UsefulLife+dur {", "if age <= freshness.UsefulLife+dur {"}}, "C13.4", "D31"},
+	{"C13", "window-inclusive", "internal/cacheabilityevaluator.go", [][2]string{{"if age < SaturatingAdd(freshness.UsefulLife, dur) {", "if age <= SaturatingAdd(freshness.UsefulLife, dur) {"}}, "C13.4", "D31"},
 	{"C13", "policy-from-error-reply", "internal/validationresponsehandler.go", [][2]string{{"r.siep.CanStaleOnError(ctx.Freshness, storedCC, ctx.CCReq) {", "r.siep.CanStaleOnError(ctx.Freshness, ccResp) {"}}, "C13.2", "D29"},
 	{"C13", "sie-without-age", "internal/validationresponsehandler.go", [][2]string{{"\t\t\tSetAgeHeader(ctx.Stored.Data, r.clock, ctx.Freshness.Age)\n", ""}}, "C13.5", "stale-if-error response lacks Age"},
 	{"C13", "sie-serves-when-denied", "internal/validationresponsehandler.go", [][2]string{{"r.siep.CanStaleOnError(ctx.Freshness, storedCC, ctx.CCReq) {", "(r.siep.CanStaleOnError(ctx.Freshness, storedCC, ctx.CCReq) || err != nil) {"}}, "C13.6", "served outside the window on network errors"},
@@ -149,7 +150,13 @@ var mutants = []Mutant{
 	{"C18", "miss-only-when-no-index", "roundtripper.go", [][2]string{{"\tif ccReq.OnlyIfCached() {\n\t\tr.logger.LogCacheMiss(", "\tif ccReq.OnlyIfCached() && refs == nil {\n\t\tr.logger.LogCacheMiss("}}, "C18.1", "other-variant-only state reaches the origin"},
 	{"C18", "hit-validates-under-only-if-cached", "roundtripper.go", [][2]string{{"\t\tif needsValidation {\n\t\t\treturn make504Response(req)\n\t\t}", "\t\tif needsValidation {\n\t\t\tgoto revalidate\n\t\t}"}}, "C18.1", "D35 (hit path)"},
 	// ---- C19
-	{"C19", "append-not-deduplicated", "internal/responsestorerer.go", [][2]string{{"\t\trefIndex = slices.IndexFunc(refs, func(ref *ResponseRef) bool {\n\t\t\treturn ref != nil && ref.ResponseID == responseID &&\n\t\t\t\tmaps.Equal(ref.VaryResolved, varyResolved)\n\t\t})\n", "\t\trefIndex = -1\n"}}, "C19.1", "D36"},
+	{"C19", "replace-leaves-duplicates", "internal/responsestorerer.go", [][2]string{{"\t\t\tif i != refIndex && sameVariant(ref) {\n\t\t\t\tcontinue\n\t\t\t}\n", "\t\t\t_ = i\n"}}, "C19.1", "D43"},
+	{"C19", "index-value-not-utf8-safe", "internal/normalization.go", [][2]string{{"return storableValue(normalizeFieldValue(field, value))", "return normalizeFieldValue(field, value)"}}, "C19.5", "D42"},
+	{"C01", "age-sum-wraps", "internal/freshness.go", [][2]string{{"Value:     SaturatingAdd(correctedInitialAge, residentTime),", "Value:     correctedInitialAge + residentTime,"}}, "C01.10", "D39"},
+	{"C13", "sie-window-wraps", "internal/cacheabilityevaluator.go", [][2]string{{"if age < SaturatingAdd(freshness.UsefulLife, dur) {", "if age < freshness.UsefulLife+dur {"}}, "C13.7", "D40"},
+	{"C02", "swr-ignores-request-max-age", "roundtripper.go", [][2]string{{"if staleFor >= 0 && staleFor < swr && !exceedsReqMaxAge {", "if staleFor >= 0 && staleFor < swr {\n\t\t\t_ = exceedsReqMaxAge"}}, "C02.1", "D41"},
+	{"C03", "opaque-key-without-origin", "internal/urlkeyer.go", [][2]string{{"return u.Scheme + \"://\" + strings.ToLower(u.Host) + \" \" + u.Opaque", "return u.Opaque"}}, "C03.2", "D38"},
+	{"C19", "append-not-deduplicated", "internal/responsestorerer.go", [][2]string{{"\t\trefIndex = slices.IndexFunc(refs, sameVariant)\n", "\t\trefIndex = -1\n"}}, "C19.1", "D36"},
 	{"C19", "variants-not-deleted", "internal/cacheinvalidator.go", [][2]string{{"\tfor h := range refs.ResponseIDs() {\n\t\tdel(h)\n\t}\n\tr.invalidateLocationHeaders", "\tr.invalidateLocationHeaders"}}, "C19.2", "orphaned entries"},
 	// ---- C20
 	{"C20", "swr-synchronous", "roundtripper.go", [][2]string{{"\tgo r.backgroundRevalidate(req2,", "\tr.backgroundRevalidate(req2,"}}, "C20", "caller waits for the origin"},
@@ -223,7 +230,7 @@ func RunMutants(repo, prop string, par int) []MutantResult {
 					res.By = []string{err.Error()}
 					return
 				}
-				res.Status = "KILLED"
+				res.Status = "LOAD-ERROR" // an environment problem, not a verdict on the mutant
 				res.By = []string{"load: " + err.Error()}
 				return
 			}
